@@ -13,6 +13,18 @@ def configs(tier):
             for f in (False, True) if not (f and s == 3)]
 
 
+def _conformance(cov, harness, family, tier, jobs):
+    """Default schedules replayed on the real selector loop (stock, eager) and uvloop."""
+    from ..conformance import conform_family
+
+    n, bad = conform_family(family, tier, jobs, limit=240 if tier == "quick" else None)
+    cov["traces_validated_against_impl"] = n
+    cov["conformance"] = ("default schedule of (a stride sample of) the timer-free programs "
+                          "replayed on asyncio selector loop, the same with the eager task "
+                          "factory, and uvloop; event logs must equal the virtual loop's")
+    harness.extend("loop model conformance: " + b for b in bad[:5])
+
+
 def run(tier, seed, jobs, family=FAMILY, rule=None):
     cov, viol, harness = run_family(family, tier, configs(tier), jobs,
                                     max_execs=20000 if tier == "quick" else 200000, seed=seed)
@@ -24,6 +36,7 @@ def run(tier, seed, jobs, family=FAMILY, rule=None):
         "{stock, eager} x hash salts; distinct = distinct time-free event logs per program; "
         "non-trivial = at least one task ended by cancellation or an exception"
     )
+    _conformance(cov, harness, family, tier, jobs)
     for v in viol:
         v["signature"] = v["what"][0].split("(")[0][:100]
     return {"level": LEVEL, "coverage": cov, "violations": viol, "harness_errors": harness,
